@@ -160,8 +160,13 @@ def run(rep, tier, seed, replay=None):
         'tables / pipeline / absolute kernel), tied event by event and bit for bit by `vh flexalg cases` (re-run here, payload included); '
         'Model/FlexAlgT.v flex_alg_t is flex_alg with the one absolute constant (the floor 1.0 of the scaled shrink factor) as a parameter '
         '(flex_alg_t one = flex_alg by reflexivity: C04_flex_floor_form); the block + flex engine Model/BlockFlexK.v (dispatch no children -> '
-        'leaf / display:flex -> flex / else block, compute_leaf_layout on the CoreStyle part, exact-key memo) is a hand composition of the '
-        'three tied algorithms -- its dispatch and memo are those of the engine skeleton (C01 event-level tie); no whole-tree K of its own',
+        'leaf / display:flex -> flex / else block, compute_leaf_layout on the CoreStyle part, exact-key memo) has no runner of its '
+        'own; since the audit of wave 7b it is PROVED to be the complete engine Model/TaffyRoot.v real_memo (the one `vh taffytree` runs, '
+        './check C01 / C05 / C06) on every tree without display:grid containers, styles embedded by bfn_emb: same resumption per node '
+        '(C04_blockflex_node_is_taffy_node), same key function, lockstep of the memoised evaluations for any cache contents '
+        '(C04_blockflex_engine_is_taffy_engine); C04_taffy_engine_scaled_layouts_partial is the whole-tree statement about real_memo. '
+        'Left out of that tie: the runner compares key numbers by representation (f32_seqb) and runs binary32, the theorems use the numeric '
+        'eqb over XQ; compute_root_layout is not composed in; the insensitivity premise mentions bf_memo_t (Fin k), which nothing runs',
         'still covered by the implementation-side oracle only: grid placement and step 11.5 (a premise of C04_grid_track_sizing_partial) -- '
         'for grid containers `Homogeneous` is a premise of C04_engine; flex containers in the known-finding class (refuted: '
         'C04_flex_algorithm_homogeneous_refuted); the real lossy cache key (is_roughly_equal: refuted) and pixel rounding (refuted)',
